@@ -33,7 +33,7 @@ use poulpy_hal::{
 
 fn garbage(v: &mut VecZnx<Vec<u8>>, tag: i64) {
     for (i, x) in v.raw_mut().iter_mut().enumerate() {
-        *x = tag + i as i64;
+        *x = crate::fillpat::pat(tag + i as i64, i);
     }
 }
 
@@ -134,6 +134,12 @@ macro_rules! enc_backend {
                 }
                 "glwe_cmp" => {
                     let mut cc = GLWECompressed::alloc_from_infos(&layout);
+                    {
+                        // C11: the compressed result starts from garbage (its buffer is crate-private: FillUniform)
+                        use poulpy_hal::layouts::FillUniform;
+                        let mut gsrc = Source::new([(crate::fillpat::pat(0x51, 3) & 0xff) as u8; 32]);
+                        cc.fill_uniform(b, &mut gsrc);
+                    }
                     module.glwe_compressed_encrypt_sk(&mut cc, &pt, &skp, seed32(sxa), &enc, &mut xe, scratch.borrow());
                     module.decompress_glwe(&mut ct, &cc);
                     ev = VecZnx::alloc(n, 1, size);
@@ -205,6 +211,7 @@ pub fn run(_args: &[String]) {
     let mut out = stdout.lock();
     for line in stdin.lock().lines() {
         let line = line.unwrap();
+        crate::fillpat::set_from_line(&line);
         let t: Vec<&str> = line.split_whitespace().collect();
         if t.len() < 2 {
             continue;
